@@ -294,6 +294,18 @@ class Facts(object):
             return set()
         if is_iostream_fn(d['dem']):
             return IOSTREAM_THROWS
+        # members of std::basic_string that libstdc++ provides as explicit instantiations (char / wchar_t below C++20): by
+        # [string.require] they report errors only as length_error / out_of_range (position arguments) or through the allocator
+        mt = re.match(r'^std::__cxx11::basic_string<.*?>::(~?\w+|operator\W+)\(', d['dem'])
+        if mt:
+            nm = mt.group(1)
+            if nm.startswith('~') or nm in ('_M_data', '_M_local_data', '_M_capacity', '_M_set_length', '_M_dispose', '_M_length', '_Alloc_hider',
+                                            'size', 'length', 'data', 'c_str', 'empty', 'capacity', 'operator[]', 'begin', 'end', 'clear', 'swap'):
+                return set()
+            s = {BAD_ALLOC, 'std::length_error'}
+            if nm in ('substr', 'insert', 'erase', 'replace', 'at', 'compare', 'copy', 'assign', 'append', 'basic_string', 'find', 'rfind'):
+                s = s | {'std::out_of_range'}
+            return s
         return {'UNKNOWN:' + d['dem'][:80]}
 
     def pad_info(self, f):
